@@ -284,3 +284,132 @@ def generate_body(repo, out_path):
             "End Gen.\n")
     coqrun.write_if_changed(out_path, text)
     return text
+
+
+# ------------------------------------------------------------------------------------------------------------------
+# what the public entry points do with the internal result:  float_prep (array branch) + the `if orient:` branch of
+# Molecule.__init__ + the orient pass-through of orient_molecule / from_data / from_file / get_fragment
+#   ->  coq/Gen/OrientStore.v
+
+def _fp_threshold(node, nname):
+    """BASE ** (-(NAME + c))  ->  (base, c)"""
+    if (isinstance(node, ast.BinOp) and isinstance(node.op, ast.Pow) and _const(node.left) is not None and _const(node.left) > 1
+            and isinstance(node.right, ast.UnaryOp) and isinstance(node.right.op, ast.USub)):
+        e = node.right.operand
+        if (isinstance(e, ast.BinOp) and isinstance(e.op, ast.Add) and isinstance(e.left, ast.Name) and e.left.id == nname
+                and _const(e.right) is not None and 0 <= _const(e.right) <= 4):
+            return _const(node.left), _const(e.right)
+    raise TranslateError(f"{SRC}: float_prep: unsupported zero-flip threshold `{ast.unparse(node)}`")
+
+
+def generate_store(repo, out_path):
+    path = os.path.join(repo, SRC)
+    try:
+        with open(path) as fh:
+            tree = ast.parse(fh.read())
+    except (OSError, SyntaxError) as e:
+        raise TranslateError(f"cannot read/parse {path}: {e}")
+    # ---- float_prep(array, around): the list/ndarray branch
+    fp = [n for n in tree.body if isinstance(n, ast.FunctionDef) and n.name == "float_prep"]
+    if len(fp) != 1 or [a.arg for a in fp[0].args.args] != ["array", "around"] or fp[0].args.defaults or fp[0].args.kwonlyargs:
+        raise TranslateError(f"{SRC}: float_prep(array, around) not found / unexpected signature")
+    body = [s for s in fp[0].body if not (isinstance(s, ast.Expr) and isinstance(s.value, ast.Constant))]
+    if len(body) != 2 or not isinstance(body[0], ast.If):
+        raise TranslateError(f"{SRC}: float_prep: expected one if/elif/else ladder followed by the return")
+    _expect(body[1], "return array", "float_prep's return")
+    br = body[0]
+    if ast.unparse(br.test) != "isinstance(array, (list, np.ndarray))" or len(br.body) != 2:
+        raise TranslateError(f"{SRC}: float_prep: the first branch is not the two-statement list/ndarray branch: `{ast.unparse(br.test)}`")
+    _expect(br.body[0], "array = np.around(array, around)", "the rounding")
+    st = br.body[1]
+    ok = (isinstance(st, ast.Assign) and len(st.targets) == 1 and isinstance(st.targets[0], ast.Subscript)
+          and ast.unparse(st.targets[0].value) == "array" and isinstance(st.targets[0].slice, ast.Compare)
+          and len(st.targets[0].slice.ops) == 1 and ast.unparse(st.targets[0].slice.left) == "np.abs(array)")
+    if not ok:
+        raise TranslateError(f"{SRC}: float_prep: expected `array[np.abs(array) <cmp> T] = c`, found `{ast.unparse(st)}`")
+    cmpop = st.targets[0].slice.ops[0]
+    base, plus = _fp_threshold(st.targets[0].slice.comparators[0], "around")
+    thr = f"(finv K (fofZ K ({base} ^ (around + {plus}))%Z))"
+    if isinstance(cmpop, ast.Lt):
+        test = f"(fltb K (py_abs K x) {thr})"
+    elif isinstance(cmpop, ast.LtE):
+        test = f"(fleb K (py_abs K x) {thr})"
+    else:
+        raise TranslateError(f"{SRC}: float_prep: unsupported comparison in the zero flip: `{ast.unparse(st)}`")
+    fill = _const(st.value)
+    if fill is None:
+        raise TranslateError(f"{SRC}: float_prep: unsupported fill value `{ast.unparse(st.value)}`")
+    # ---- Molecule.__init__: the orient branch
+    cls = [n for n in tree.body if isinstance(n, ast.ClassDef) and n.name == "Molecule"]
+    if len(cls) != 1:
+        raise TranslateError(f"{SRC}: class Molecule not found")
+    fns = {n.name: n for n in cls[0].body if isinstance(n, ast.FunctionDef)}
+    init = fns.get("__init__")
+    if init is None or [a.arg for a in init.args.args] != ["self", "orient", "validate"] or ast.unparse(init.args.defaults[0]) != "False":
+        raise TranslateError(f"{SRC}: Molecule.__init__(self, orient=False, validate=None, **kwargs) not found")
+    if any(isinstance(t, ast.Name) and t.id == "orient" for n in ast.walk(init) if isinstance(n, (ast.Assign, ast.AugAssign, ast.AnnAssign))
+           for t in (n.targets if isinstance(n, ast.Assign) else [n.target])):
+        raise TranslateError(f"{SRC}: Molecule.__init__ reassigns `orient`")
+    noise_assign = [n for n in init.body if isinstance(n, ast.Assign) and ast.unparse(n.targets[0]) == "geometry_noise"]
+    if len(noise_assign) != 1 or ast.unparse(noise_assign[0].value) != "kwargs.pop('geometry_noise', GEOMETRY_NOISE)":
+        raise TranslateError(f"{SRC}: Molecule.__init__: geometry_noise is not kwargs.pop('geometry_noise', GEOMETRY_NOISE)")
+    if sum(1 for n in ast.walk(init) if isinstance(n, (ast.Assign, ast.AugAssign)) and
+           any(ast.unparse(t) == "geometry_noise" for t in (n.targets if isinstance(n, ast.Assign) else [n.target]))) != 1:
+        raise TranslateError(f"{SRC}: Molecule.__init__ assigns geometry_noise more than once")
+    last = init.body[-1]
+    if not (isinstance(last, ast.If) and ast.unparse(last.test) == "orient" and len(last.body) == 1):
+        raise TranslateError(f"{SRC}: Molecule.__init__ does not end with the `if orient:` ladder")
+    _expect(last.body[0], "values['geometry'] = float_prep(self._orient_molecule_internal(), geometry_noise)", "the orient branch")
+    if sum(1 for n in ast.walk(init) if isinstance(n, ast.Name) and n.id == "orient") != 1:
+        raise TranslateError(f"{SRC}: Molecule.__init__ consults `orient` in more than one place")
+    # the statement before the ladder must be the symbols title-casing (under `if validate:`): nothing else touches values['geometry']
+    for n in ast.walk(init):
+        if isinstance(n, ast.Assign) and any(ast.unparse(t) == "values['geometry']" for t in n.targets) and n is not last.body[0]:
+            inside_else = last.orelse and any(n is m for e in last.orelse for m in ast.walk(e))
+            if not inside_else:
+                raise TranslateError(f"{SRC}: Molecule.__init__ assigns values['geometry'] outside the orient ladder")
+    # ---- pass-through of the flag by the other public entry points
+    def returns(fname, text):
+        f = fns.get(fname)
+        if f is None:
+            raise TranslateError(f"{SRC}: Molecule.{fname} not found")
+        rets = [n for n in ast.walk(f) if isinstance(n, ast.Return)]
+        if not rets or ast.unparse(rets[-1]) != text:
+            raise TranslateError(f"{SRC}: Molecule.{fname}: expected final `{text}`, found `{ast.unparse(rets[-1]) if rets else None}`")
+        return f
+    f = returns("orient_molecule", "return Molecule(orient=True, **self.dict())")
+    if len([s for s in f.body if not (isinstance(s, ast.Expr) and isinstance(s.value, ast.Constant))]) != 1:
+        raise TranslateError(f"{SRC}: Molecule.orient_molecule has more than its return statement")
+    for fname, text in (("from_data", "return cls(orient=orient, validate=validate, **input_dict)"),
+                        ("from_file", "return cls.from_data(data, dtype, orient=orient, **kwargs)"),
+                        ("get_fragment", "return Molecule(orient=orient, **constructor_dict)")):
+        f = returns(fname, text)
+        if sum(1 for n in ast.walk(f) if isinstance(n, ast.Name) and n.id == "orient") != 1:
+            raise TranslateError(f"{SRC}: Molecule.{fname} uses `orient` other than passing it on")
+        dflt = {a.arg: d for a, d in zip(f.args.kwonlyargs, f.args.kw_defaults)}
+        pos = f.args.args[len(f.args.args) - len(f.args.defaults):]
+        dflt.update({a.arg: d for a, d in zip(pos, f.args.defaults)})
+        if "orient" not in dflt or ast.unparse(dflt["orient"]) != "False":
+            raise TranslateError(f"{SRC}: Molecule.{fname}: default of `orient` is not False")
+    text = ("(** GENERATED by harness/translate/inertia.py (generate_store) from float_prep and Molecule.__init__ — do not edit.\n"
+            "    float_prep's list/ndarray branch (np.around, then the zero flip with its comparison, threshold and fill value taken\n"
+            "    from the source) applied entrywise to the internal result, as the `if orient:` branch of Molecule.__init__ does\n"
+            "    (values['geometry'] = float_prep(self._orient_molecule_internal(), geometry_noise); geometry_noise defaults to\n"
+            "    GEOMETRY_NOISE).  Checked structurally: orient_molecule is `Molecule(orient=True, **self.dict())`; from_data, from_file\n"
+            "    and get_fragment only pass `orient` (default False) on to the constructor. *)\n"
+            "From Coq Require Import List ZArith.\n"
+            "Require Import QV.Common.Outcome QV.Common.Geo3 QV.Common.Geo3Sum QV.Common.Geo3Loop QV.Gen.Inertia QV.Gen.OrientBody.\n"
+            "Import ListNotations.\n\n"
+            "Section Gen.\nVariable K : Fops.\n"
+            "Variable eigh : mat3 K -> vec3 K * mat3 K.     (* np.linalg.eigh: (w, v) *)\n"
+            "Variable np_around : Z -> K -> K.              (* np.around(x, n) on one entry *)\n\n"
+            "Definition float_prep_entry_gen (around : Z) (x : K) : K :=\n"
+            "  let x := np_around around x in\n"
+            f"  if {test} then (fofZ K ({fill})%Z) else x.\n\n"
+            "Definition default_geometry_noise : Z := geometry_noise_exp.\n\n"
+            "Definition orient_stored_gen (geometry_noise : Z) (self_geometry : list (vec3 K)) (self_masses : list K) : outcome (list (vec3 K)) :=\n"
+            "  obind (orient_internal_gen K eigh self_geometry self_masses) (fun g =>\n"
+            "  Ok (map (vmap (float_prep_entry_gen geometry_noise)) g)).\n"
+            "End Gen.\n")
+    coqrun.write_if_changed(out_path, text)
+    return text
